@@ -5,6 +5,7 @@ import (
 	"github.com/orda-io/orda/client/pkg/context"
 	"github.com/orda-io/orda/client/pkg/errors"
 	"github.com/orda-io/orda/client/pkg/model"
+	"github.com/orda-io/orda/client/pkg/simhook"
 
 	mqtt "github.com/eclipse/paho.mqtt.golang"
 )
@@ -42,6 +43,9 @@ func NewNotifyManager(ctx *context.ClientContext, pubSubAddr string, cm *model.C
 		SetClientID(cm.GetCUID()).
 		SetUsername(cm.Alias)
 	client := mqtt.NewClient(pubSubOpts)
+	if c, ok := simhook.MQTT(pubSubOpts).(mqtt.Client); ok {
+		client = c
+	}
 	channel := make(chan *notificationMsg)
 	return &NotifyManager{
 		ctx:     ctx,
